@@ -41,6 +41,30 @@ def pragma_header(opts: dict, r):
     return "# pytrapic: " + ", ".join(tags[:cut]) + "\n# pytrapic: " + ", ".join(tags[cut:]) + "\n"
 
 
+def tail_family(r):
+    """a chain p0 → p1 → … of parameterless procedures, each ending in the call of the next (no other call, no early return in
+    them: F-C02-a), p0 entered from two or three sites of the main loop; inner procedures used only in the tail position or also
+    called directly; they talk through globals"""
+    k = r.randrange(2, 4)
+    L = ["g = 0", ""]
+    effects = ["d0.On = g", "d1.Setting = g + 1", "db.Power = g * 2", "d2.Mode = 1", "d0.Setting = g - 1", "db.Lock = g"]
+    for j in reversed(range(k)):
+        body = [r.choice(effects) for _ in range(r.randrange(1, 3))]
+        if j == k - 1:
+            if r.random() < 0.5:
+                body.append("if g > 1:\n        d3.On = g")
+        else:
+            body.append(f"p{j + 1}()")
+        L += [f"def p{j}():"] + ["    " + b for b in body] + [""]
+    main = ["x = 0", "while x < 3:", "    x = x + 1", "    g = x", "    p0()", "    yield_()", "    p0()"]
+    if r.random() < 0.4:
+        main.append("    p0()")
+    if k > 1 and r.random() < 0.4:
+        main.append(f"    p{r.randrange(1, k)}()")       # an inner procedure is also called directly
+    main += ["db.Mode = x", "while True:", "    yield_()"]
+    return "\n".join(L + main) + "\n"
+
+
 def run(tier: str, seed: int) -> int:
     chk = Check(PROP, tier, seed, "other")
     chk.assumptions = ["PV.Src / PV.IC10 are trusted specifications; behaviour = effect trace against pseudo-random device environments (prefix rule)",
@@ -125,6 +149,32 @@ def run(tier: str, seed: int) -> int:
         for (o1, t1, c1), (o2, t2, c2) in zip(traces, traces[1:]):
             m = min(len(t1), len(t2))
             if t1[:m] != t2[:m] or min(len(t1), len(t2)) < 10:
+                failures.append({"what": f"the same source behaves differently under options {[k for k, x in o1.items() if x]} and {[k for k, x in o2.items() if x]} "
+                                         f"(traces of {len(t1)} and {len(t2)} effects, first difference at {next((j for j in range(m) if t1[j] != t2[j]), m)})",
+                                 "src": src, "opts": o1, "opts2": o2, "code": c1, "code2": c2, "template": True})
+                break
+    # -- tail family: chains of parameterless procedures ending in a call, entered from several sites; every combination of
+    #    inlining x tail calls x calling convention, outputs compared pairwise ------------------------------------------------
+    import itertools
+    for i in range(25 if tier == "quick" else 1500):
+        src = tail_family(r)
+        traces = []
+        for inl, tco, pp in itertools.product([False, True], repeat=3):
+            o = whole.random_opts(r)
+            o.update(inline_functions=inl, tail_call_optimization=tco, use_push_pop_functions=pp, append_version=False)
+            res = whole.compile_real(src, o)
+            if "error" in res:
+                stats["tail_family_errors"] = stats.get("tail_family_errors", 0) + 1
+                continue
+            d = drv.call(cmd="run-ic10", text=res["code"], seed=7, steps=2500, pool=[0.0, 1.0, 2.0, 3.0])
+            if "parse_error" in d:
+                continue
+            stats["tail_family_runs"] = stats.get("tail_family_runs", 0) + 1
+            chk.count((res["code"],), nontrivial=True)
+            traces.append((o, d["trace"], res["code"]))
+        for (o1, t1, c1), (o2, t2, c2) in zip(traces, traces[1:]):
+            m = min(len(t1), len(t2))
+            if t1[:m] != t2[:m] or m < 10:
                 failures.append({"what": f"the same source behaves differently under options {[k for k, x in o1.items() if x]} and {[k for k, x in o2.items() if x]} "
                                          f"(traces of {len(t1)} and {len(t2)} effects, first difference at {next((j for j in range(m) if t1[j] != t2[j]), m)})",
                                  "src": src, "opts": o1, "opts2": o2, "code": c1, "code2": c2, "template": True})
